@@ -169,3 +169,15 @@ def type_alphabet_obligation(ctx, facts, rule):
     summ = boolsum.Summarizer(facts)
     c = boolsum.strpred_canon(summ.summary("is_valid_package_type"), facts)
     ctx.ob(rule, "valid_type = [0-9A-Za-z.+-]+", c["nonempty"] and c["all"] == VALID_TYPE_SET and not c["other"], fn="is_valid_package_type", site=fn_site(facts, "is_valid_package_type"), detail="all={%s}" % boolsum.set_to_ranges(c["all"] or 0))
+
+
+def raw_type_alphabet_obligation(ctx, facts, rule):
+    """the type is written raw by Display and re-read by splitting: what the type predicate admits must be ASCII that needs
+    no escaping and is no separator -- nothing from the name component's escape set (controls, space, '"<>%@?#`{}/',
+    DEL) and nothing non-ASCII.  (Which raw-safe characters are admitted beyond that is C02's / C04's business.)"""
+    from purlsa import boolsum
+    summ = boolsum.Summarizer(facts)
+    c_ = boolsum.strpred_canon(summ.summary("is_valid_package_type"), facts)
+    unsafe = R_ESCSET["name"] | (boolsum.universe() & ~((1 << 128) - 1))
+    extra = (c_["all"] or 0) & unsafe
+    ctx.ob(rule, "every character valid_type admits can be written raw (no separator, nothing that needs escaping, ASCII only)", c_["all"] is not None and not extra and not c_["other"], fn="is_valid_package_type", site=fn_site(facts, "is_valid_package_type"), detail="admitted although unsafe: {%s}" % boolsum.set_to_ranges(extra))
